@@ -18,8 +18,10 @@
   * cost clause: `Vt.C08.su_bounded`, `sd_bounded`, `scrollDown_trips`, `insertLines_trips`,
     `ich_trips`, and the byte-parameter saturation `param_bounded` (vte never hands over a value
     above 65535).
-  PARTIAL: `process_total` (every action from every `Inv` state, which needs the preservation of
-  `Inv` by the cell-writing operations) is in progress; see the registry.
+  The central theorem — `process_total` / `reachable_inv`: every action from every `Inv` state returns normally and
+  keeps `Inv` — is in InvPerform (with Lemmas/{RowInv,RowOps,GridInv,GridTotal,CellInv,TextInv,VteOk}); the accessor half is
+  C03b (`accessors_total`); Bytes adds that the emitters return bytes.  The "bound" theorems listed under the cost
+  clause are facts about the trip-count expressions the model shares with the code (`min count rows`), not more.
 -/
 import Vt.Props.C13
 import Vt.Props.C06
